@@ -1,7 +1,7 @@
 // SPEC (ghost only) for precis-core: per-code-point table predicates (uninterpreted here; each is tied to
 // the real generated table and to the raw UCD 6.3.0 files by a Kani harness, see ledger), the RFC 8264
 // section 8 decision list, the RFC 5892 Appendix A context rules and the acceptance rule of a string class.
-use crate::precis_core::DerivedPropertyValue;
+
 use crate::precis_core::error::{Error, UnexpectedError, CodepointInfo};
 use crate::precis_core::context::ContextRuleError;
 
